@@ -5,7 +5,6 @@ import EmmyVerif.Drv.Util
 
 `lspshape.build <entries>`      entries `line:col:len:typ:mods;…` → `ok <dl:ds:len:typ:mods;…>`
 `lspshape.roundtrip <entries>`  → `ok <decoded entries>` (decode (build es))
-`lspshape.push <0|1> sl sc el ec typ mods` → entries
 `lspshape.offsets <hex text> <rootEnd> <l:c;…>` → per position `none|guard|<off>`
 `lspshape.ranges <hex text> <sl:sc:el:ec;…>`     → per range `none|s:e`
 `lspshape.chain <ranges>` ranges `sl:sc:el:ec;…` (innermost first) → `ok nested=<b> strict=<b> dedupStrict=<b>`
@@ -39,10 +38,6 @@ def handle (op : String) (args : List String) : Option String :=
   | "roundtrip", [s] => do
     let es ← (items s).mapM entry
     pure ("ok " ++ showList ((decode 0 0 (build es)).map showEntry))
-  | "push", [m, a, b, c, d, t, md] => do
-    let a ← a.toNat?; let b ← b.toNat?; let c ← c.toNat?; let d ← d.toNat?
-    let t ← t.toNat?; let md ← md.toNat?
-    pure ("ok " ++ showList ((pushData (m == "1") a b c d t md).map showEntry))
   | "offsets", [h, re, ps] => do
     let t ← Drv.unhex h
     let re ← re.toNat?
